@@ -11,7 +11,7 @@ def run(tier, seed, jobs):
     if tier != "quick":
         configs.append(dict(threads={"bound": 1, "mode": "loop-main"}, eager=True, salt=1))
     cov, viol, harness = run_family(FAMILY, tier, configs, jobs,
-                                    max_execs=500 if tier == "quick" else 100000, seed=seed)
+                                    max_execs=500 if tier == "quick" else 1500, seed=seed)
     cov["preemption_bound"] = bound
     cov["rule"] = (
         "scenarios: 1-2 (thorough 3) concurrent to_thread.run_sync calls x limiter total {1,2} "
